@@ -79,7 +79,7 @@ fn layout_meta(pool: &Pool, l: &Value, now: chrono::DateTime<chrono::Utc>, now_s
         keys.insert(KeyId::from_str(&id).unwrap(), pool.public(stored));
     }
     // expiry relative to the real clock: same ordering as in the scenario, with a safety margin on the unexpired side
-    let delta = (l["expires_secs"].as_i64().unwrap() as i128 - now_secs as i128).clamp(-400_000_000, 400_000_000) as i64;
+    let delta = (l["expires_secs"].as_i64().unwrap() as i128 - now_secs as i128).clamp(-63_000_000_000, 250_000_000_000) as i64;   // stays within years 1..9999 around the real clock
     let nanos_later = l["expires_nanos"].as_u64().unwrap_or(0) > 0;
     let expires = if delta > 0 || (delta == 0 && nanos_later) {
         now + chrono::Duration::seconds(delta + 30)
